@@ -76,7 +76,7 @@ func VC_C02_two_builders() {
 	vEnv()
 	vPristine(vC02Target)
 	vPristine(vC02Target2)
-	verifApart(verifFuncCode(vC02Target), verifFuncCode(vC02Target2), 64)
+	verifApart(verifFuncCode(vC02Target), verifFuncCode(vC02Target2), 32)
 	snap := verifImgSnap()
 	b1, b2 := Create(), Create()
 	b1.Func(vC02Target).Apply(vC02CbA)
